@@ -108,6 +108,8 @@ func runC03(c *Ctx, idx int, o *Obs) {
 		Lens: gen.Pick(r, "all", "all", "all", "mixed", "none"), LenCls: gen.Pick(r, "len", "tie", "dec"),
 		SupP: gen.Pick(r, 0.0, 0.5, 1.0), SupCls: gen.Pick(r, "unit", "int"), PValP: gen.Pick(r, 0.0, 0.3),
 		InnerNameP: gen.Pick(r, 0.0, 0.3), NodeComP: gen.Pick(r, 0.0, 0.3), EdgeComP: gen.Pick(r, 0.0, 0.3),
+		// single-child inner nodes (several siblings, chains): what re-rooting a rooted tree leaves behind
+		SingleP: gen.Pick(r, 0.0, 0.0, 0.0, 0.0, 0.15, 0.4),
 	}
 	R := gen.Tree(r, opts)
 	start := R.Newick()
@@ -123,6 +125,7 @@ func runC03(c *Ctx, idx int, o *Obs) {
 	}
 	o.Class = fmt.Sprintf("%s/root%d/len-%s", opts.Shape, len(R.Root.Children), opts.Lens)
 	h := &hist{r: r, t: t}
+	h.singles = hasSingles(t)
 	if !checkStructure(o, t, "start "+Trunc(start, 200)) {
 		return
 	}
